@@ -719,3 +719,67 @@ Lemma str_wrapper_equivariant (l1 l2 : list str) (v : list A) i j :
 Proof. apply wrapper_equivariant; ord. Qed.
 
 End Strings.
+
+(* ====================================================================================== *)
+(* Part C [ext] - run level: phases that interact only through order-independent quantities  *)
+(* (step size, nucleation sites, matrix composition are sums / minima over the phases) give, *)
+(* for a permuted listing, the permuted per-phase histories and the same shared history      *)
+
+Lemma reorder_perm {A} (d : A) (l : list A) idx :
+  Permutation idx (seq 0 (length l)) -> Permutation (reorder d l idx) l.
+Proof.
+  intros Hp. unfold reorder.
+  transitivity (map (fun i => nth i l d) (seq 0 (length l))); [apply Permutation_map, Hp|].
+  rewrite map_nth_seq. reflexivity.
+Qed.
+
+Section RunEquivariance.
+Variables (St G : Type).
+Variable shared : list St -> G.         (* what every phase sees of the others: dt, sites, composition *)
+Variable upd : G -> St -> St.            (* the update of one phase given the shared quantities *)
+Hypothesis shared_perm : forall l l', Permutation l l' -> shared l = shared l'.
+
+Definition kwn_step (l : list St) : list St := map (upd (shared l)) l.
+Definition kwn_run (n : nat) (l : list St) : list St := Nat.iter n kwn_step l.
+
+Lemma kwn_step_length l : length (kwn_step l) = length l.
+Proof. apply map_length. Qed.
+Lemma kwn_run_length n l : length (kwn_run n l) = length l.
+Proof. induction n; simpl; auto. unfold kwn_run in *. simpl. now rewrite kwn_step_length. Qed.
+
+Lemma kwn_step_reorder d l idx : Permutation idx (seq 0 (length l)) ->
+  kwn_step (reorder d l idx) = reorder d (kwn_step l) idx /\ shared (reorder d l idx) = shared l.
+Proof.
+  intros Hp.
+  assert (Hs : shared (reorder d l idx) = shared l) by (apply shared_perm, reorder_perm, Hp).
+  split; auto. unfold kwn_step. rewrite Hs. symmetry.
+  apply (reorder_map (upd (shared l)) d d).
+  apply (Permutation_Forall (Permutation_sym Hp)). apply Forall_forall. intros i Hi. apply in_seq in Hi. lia.
+Qed.
+
+Lemma kwn_run_reorder n d l idx : Permutation idx (seq 0 (length l)) ->
+  kwn_run n (reorder d l idx) = reorder d (kwn_run n l) idx /\
+  shared (kwn_run n (reorder d l idx)) = shared (kwn_run n l).
+Proof.
+  intros Hp. induction n as [|n [IH1 IH2]].
+  - simpl. split; auto. apply shared_perm, reorder_perm, Hp.
+  - assert (Hp' : Permutation idx (seq 0 (length (kwn_run n l)))) by (now rewrite kwn_run_length).
+    destruct (kwn_step_reorder d (kwn_run n l) idx Hp') as [E1 E2].
+    assert (E : kwn_run (S n) (reorder d l idx) = reorder d (kwn_run (S n) l) idx).
+    { unfold kwn_run in *. simpl. rewrite IH1. exact E1. }
+    split; auto. rewrite E. apply shared_perm, reorder_perm. now rewrite kwn_run_length.
+Qed.
+End RunEquivariance.
+
+(* the hypothesis is met by the step size of the model: with dt = getDt as the shared quantity,
+   every per-phase update rule gives equivariant runs *)
+Lemma run_with_getDt_equivariant (c : cons Rops) npos Tcur Tprev vmAlpha dtPrev dtMax
+      (upd : R -> phase Rops -> phase Rops) n d (ps : list (phase Rops)) idx :
+  Permutation idx (seq 0 (length ps)) ->
+  let dt := fun l => getDt Rops c npos Tcur Tprev l vmAlpha dtPrev dtMax in
+  kwn_run _ _ dt upd n (reorder d ps idx) = reorder d (kwn_run _ _ dt upd n ps) idx /\
+  dt (kwn_run _ _ dt upd n (reorder d ps idx)) = dt (kwn_run _ _ dt upd n ps).
+Proof.
+  intros Hp dt. apply kwn_run_reorder; auto.
+  intros l l' H. apply getDt_perm, H.
+Qed.
